@@ -1008,6 +1008,11 @@ func (a *Analysis) primitiveMirror() (problems []string, pos []string, n int) {
 			if fixedText {
 				continue // fixed-width text: writer/reader agreement under every valuation is C13's X5/X6
 			}
+			// only the atom codecs are compared: one number, one prefixed text or one list; helpers that write a
+			// placeholder and a body, frames and the like are judged where they are inlined (C01, C04)
+			if len(fs) != 1 || !(fs[0].Kind == "int" || fs[0].Kind == "ptext" || fs[0].Kind == "list") {
+				continue
+			}
 			r := rend{fn: fn, key: strings.Join(parts, " · ")}
 			if isReader {
 				readers = append(readers, r)
